@@ -10,15 +10,15 @@ cp $wt/mutant/patch.diff $out/patch.diff
 cp $wt/mutant/$demo $out/$demo
 [ -f $wt/mutant/meta.json ] && cp $wt/mutant/meta.json $out/agent_meta.json
 [ -f $wt/mutant/RUN.txt ] && cp $wt/mutant/RUN.txt $out/RUN.txt
-log=$out/confirm.log; : > $log
+log=$out/confirm.log; [ "${SKIP_CONFIRM:-0}" = 1 ] || : > $log
 if [ "${SKIP_CONFIRM:-0}" != 1 ]; then
   cd $wt && git apply -R mutant/patch.diff 2>/dev/null; git -C $wt checkout -- . 
   t=tests/seed_${id//-/_}_demo.rs; cp mutant/$demo $t
   echo "== demo WITHOUT patch" >> $log
-  CARGO_NET_OFFLINE=true cargo test --offline --test seed_${id//-/_}_demo >> $log 2>&1; a=$?
+  CARGO_NET_OFFLINE=true cargo test --offline ${FEATURES:-} --test seed_${id//-/_}_demo >> $log 2>&1; a=$?
   git apply mutant/patch.diff
   echo "== demo WITH patch" >> $log
-  CARGO_NET_OFFLINE=true cargo test --offline --test seed_${id//-/_}_demo >> $log 2>&1; b=$?
+  CARGO_NET_OFFLINE=true cargo test --offline ${FEATURES:-} --test seed_${id//-/_}_demo >> $log 2>&1; b=$?
   git apply -R mutant/patch.diff; rm -f $t
   echo "confirm: demo rc without=$a with=$b" | tee -a $log
 fi
